@@ -9,11 +9,17 @@ The code has defects, so the full statements `RelInverse`, `RelIsRef`, `RelParen
 `RelBoundaries` below are FALSE for the code as written: each is refuted by a kernel-checked witness
 on valid IRIs, and carried as a `_partial` theorem under the decidable side condition `cleanCase`
 (defined next to the model; the driver evaluates it on every differential case as `m.clean`).
+`cleanCase` looks at the returned reference; `rel_path_input_partial` and `rel_same_doc_inverse_partial` (last
+section) state the round trip under hypotheses on the INPUTS only.  The clause "same-document IRIs are always
+relativised" (`RelSameDoc`) holds in full for UTF-8 inputs (`rel_same_doc_some`), and `RelBoundaries` holds for
+UTF-8 inputs except on one base shape (`rel_boundaries_utf8_partial`).
 -/
 import SophiaModel.Model.Relativize
 import SophiaModel.Regex.Decide
 import SophiaModel.Gen.Regexes
 import SophiaProofs.Lemmas.RelativizePath
+import SophiaProofs.Lemmas.RelativizeUtf8
+import SophiaProofs.Lemmas.RelativizeInput
 
 namespace SophiaProofs.C17
 open SophiaModel SophiaModel.Rfc3986 SophiaModel.Relativize SophiaProofs.Relativize
@@ -38,6 +44,19 @@ def RelParents : Prop := ∀ (base : Octets) (n : Nat) (iri : Octets) ins t,
 
 /-- no slice of the IRI cuts a multi-byte character (or leaves the string) -/
 def RelBoundaries : Prop := ∀ (base : Octets) (n : Nat) (iri : Octets), relativize (new base n) iri ≠ .panic
+
+/-- `RelBoundaries` restricted to the inputs that exist in Rust: both strings have the shape of UTF-8 (every `str`
+has) and the base has a scheme. Still false (`rel_boundaries_utf8_refuted`). -/
+def RelBoundariesUtf8 : Prop := ∀ (base : Octets) (n : Nat) (iri : Octets),
+  (split base).scheme.isSome → utf8Shaped 0 base = true → utf8Shaped 0 iri = true →
+    relativize (new base n) iri ≠ .panic
+
+/-- "an IRI equal to the base or differing only in query/fragment is always relativised": a reference is returned
+(not `None`, not a panic). TRUE for UTF-8 inputs: `rel_same_doc_some`. -/
+def RelSameDoc : Prop := ∀ (base : Octets) (n : Nat) (iri : Octets),
+  (split base).scheme.isSome → utf8Shaped 0 base = true → utf8Shaped 0 iri = true →
+  (split iri).scheme = (split base).scheme → (split iri).authority = (split base).authority →
+  (split iri).path = (split base).path → ∃ ins t, relativize (new base n) iri = .some ins t
 
 /-! ### kernel-checked refutations (each is a finding, see findings/C17.json) -/
 
@@ -94,6 +113,13 @@ theorem rel_boundaries_refuted : ¬ RelBoundaries := fun h =>
   absurd (show relativize (new (s "http://" ++ [Char.ofNat 0xC3, Char.ofNat 0xA9] ++ s "?q") 0)
       (s "http://" ++ [Char.ofNat 0xC3, Char.ofNat 0xA9] ++ s "/x") = .panic by decide) (h _ _ _)
 
+/-- the same for a three-octet character (`€` = E2 82 AC), on inputs that have the shape of UTF-8: the panic is not
+an artefact of the octet model accepting arbitrary octet strings -/
+theorem rel_boundaries_utf8_refuted : ¬ RelBoundariesUtf8 := fun h =>
+  absurd (show relativize (new (s "http://" ++ [Char.ofNat 0xE2, Char.ofNat 0x82, Char.ofNat 0xAC] ++ s "?q") 3)
+      (s "http://" ++ [Char.ofNat 0xE2, Char.ofNat 0x82, Char.ofNat 0xAC] ++ s "/x") = .panic by decide)
+    (h _ _ _ (by decide) (by decide) (by decide))
+
 /-! ### what holds for every input -/
 
 /-- `rel_parents`, the part that is true of the code: the number of "../" that `relativize` *inserts* never
@@ -128,6 +154,69 @@ theorem rel_boundaries_partial (R : Relativizer) (iri : Octets)
 
 example : ∀ k ∈ sliceIndices (new (s "http://a/b/c") 1), k ≤ lcp (new (s "http://a/b/c") 1).base (s "http://a/x") →
     isCharBoundary (s "http://a/x") k = true := by decide
+
+/-- `rel_boundaries` for the inputs that exist in Rust (strings with the shape of UTF-8), at full strength except for
+ONE base shape: `relativize` never panics unless the base is `scheme://authority` with the authority ending in a
+multi-byte character and an EMPTY path (`authEndsMultibyteNoPath`, the shape of `rel_boundaries_utf8_refuted`).
+The hypothesis of `rel_boundaries_partial` is discharged here: every slice index is the position of, or one past, an
+ASCII delimiter of the base (or its end), and char boundaries inside the common byte prefix are shared
+(`icb_transfer`) - wherever the two strings diverge, also in the middle of a 2-, 3- or 4-octet character. -/
+theorem rel_boundaries_utf8_partial (base : Octets) (n : Nat) (iri : Octets)
+    (hs : (split base).scheme.isSome) (hb : utf8Shaped 0 base = true) (hi : utf8Shaped 0 iri = true)
+    (hx : authEndsMultibyteNoPath base = false) :
+    relativize (new base n) iri ≠ .panic :=
+  no_panic_utf8 hs hb hi hx
+
+-- non-vacuity: divergence INSIDE a character (é C3 A9 / ê C3 AA share C3; € E2 82 AC / ₠ E2 82 A0 share two octets),
+-- an authority ending in a multi-byte character with a non-empty path
+example : let b := s "http://" ++ [Char.ofNat 0xC3, Char.ofNat 0xA9] ++ s "/b/" ++ [Char.ofNat 0xE2, Char.ofNat 0x82, Char.ofNat 0xAC]
+    let i := s "http://" ++ [Char.ofNat 0xC3, Char.ofNat 0xA9] ++ s "/b/" ++ [Char.ofNat 0xE2, Char.ofNat 0x82, Char.ofNat 0xA0]
+    (split b).scheme.isSome ∧ utf8Shaped 0 b = true ∧ utf8Shaped 0 i = true ∧ authEndsMultibyteNoPath b = false ∧
+      lcp b i = 14 ∧ isCharBoundary i (lcp b i) = false ∧
+      relativize (new b 0) i = .some .nothing [Char.ofNat 0xE2, Char.ofNat 0x82, Char.ofNat 0xA0] := by decide
+-- the shape predicate rejects what is not UTF-8 (a lone continuation octet, a truncated character)
+example : utf8Shaped 0 [Char.ofNat 0xA9] = false ∧ utf8Shaped 0 [Char.ofNat 0xE2, Char.ofNat 0x82] = false ∧
+    utf8Shaped 0 [Char.ofNat 0xF0, Char.ofNat 0x9D, Char.ofNat 0x84, Char.ofNat 0x9E] = true := by decide
+
+/-- `rel_same_doc` at full strength (`RelSameDoc`): an IRI that has the scheme, authority and path of the base is
+always answered with a reference - never `None`, never a panic - namely a slice of the IRI with nothing inserted.
+(What the slice resolves to is another matter: `rel_inverse_refuted_query_dropped`.) -/
+theorem rel_same_doc_some : RelSameDoc := by
+  intro base n iri hs hb hi h1 h2 h3
+  obtain ⟨t, ht⟩ := same_doc_some (n := n) hs hb hi h1 h2 h3
+  exact ⟨.nothing, t, ht⟩
+
+example : let b := s "http://" ++ [Char.ofNat 0xC3, Char.ofNat 0xA9] ++ s "?" ++ [Char.ofNat 0xC3, Char.ofNat 0xA9]
+    let i := s "http://" ++ [Char.ofNat 0xC3, Char.ofNat 0xA9] ++ s "?" ++ [Char.ofNat 0xC3, Char.ofNat 0xAA]
+    (split b).scheme.isSome ∧ utf8Shaped 0 b = true ∧ utf8Shaped 0 i = true ∧ (split i).scheme = (split b).scheme ∧
+      (split i).authority = (split b).authority ∧ (split i).path = (split b).path ∧ authEndsMultibyteNoPath b = true ∧
+      relativize (new b 2) i = .some .nothing (s "?" ++ [Char.ofNat 0xC3, Char.ofNat 0xAA]) := by decide
+
+/-- when `None` is answered: only if the common byte prefix of base and IRI stops before `pseudoroot` - the position
+right after the `(parents+1)`-th '/' of the base path counted from its end, or the start of the path when it has fewer
+(`new_cuts` in Lemmas/RelativizeSlashes.lean) - i.e. the IRI lies outside the deepest directory reachable with
+`parents` steps. (All octet strings, all limits.) -/
+theorem rel_none_only_outside (base : Octets) (n : Nat) (iri : Octets)
+    (h : relativize (new base n) iri = .none) : lcp base iri < (new base n).pseudoroot := by
+  have := none_outside h
+  rwa [new_base] at this
+
+/-- and conversely (completeness inside that directory, UTF-8 inputs, same exception as `rel_boundaries_utf8_partial`):
+an IRI sharing the base up to `pseudoroot` always gets a reference -/
+theorem rel_some_inside (base : Octets) (n : Nat) (iri : Octets)
+    (hs : (split base).scheme.isSome) (hb : utf8Shaped 0 base = true) (hi : utf8Shaped 0 iri = true)
+    (hx : authEndsMultibyteNoPath base = false) (hl : lcp base iri ≥ (new base n).pseudoroot) :
+    ∃ ins t, relativize (new base n) iri = .some ins t := by
+  have h1 : relativize (new base n) iri ≠ .none := some_inside (by rw [new_base]; exact hl)
+  have h2 := no_panic_utf8 (n := n) hs hb hi hx
+  cases h : relativize (new base n) iri with
+  | panic => exact absurd h h2
+  | none => exact absurd h h1
+  | some ins t => exact ⟨ins, t, rfl⟩
+
+example : (new (s "http://a/b/c/d") 1).pseudoroot = 11 ∧ lcp (s "http://a/b/c/d") (s "http://a/b/x") = 11 ∧
+    lcp (s "http://a/b/c/d") (s "http://a/x") = 9 ∧ relativize (new (s "http://a/b/c/d") 1) (s "http://a/x") = .none ∧
+    relativize (new (s "http://a/b/c/d") 1) (s "http://a/b/x") = .some (.up 1) (s "x") := by decide
 
 /-! ### the partial theorems: inside the decidable region `cleanCase` the code is right -/
 
@@ -223,5 +312,101 @@ example : cleanCase (s "http://a?q") 0 (s "http://a/b/c?r") = true ∧ cleanCase
 example : cleanCase (s "http://a/b/c") 0 (s "http://a/b/x:y") = false := by decide
 example : cleanCase (s "http://a/b/d") 0 (s "http://a/b//c") = false := by decide
 example : cleanCase (s "http://a/b") 3 (s "http://a/bc") = false := by decide
+
+/-! ### INPUT-side theorems (hypotheses on base, IRI and limit only) -/
+
+private theorem lcp_self_append (x a b : Octets) : lcp (x ++ a) (x ++ b) ≥ x.length := by
+  rw [lcp_append_left]; omega
+
+/-- same document, input-only: when the IRI has the scheme, authority and path of the base and either the same query
+or the base has no query, the reference returned resolves back to the IRI -/
+theorem rel_same_doc_inverse_partial (base : Octets) (n : Nat) (iri : Octets)
+    (hs : (split base).scheme.isSome) (hb : utf8Shaped 0 base = true) (hi : utf8Shaped 0 iri = true)
+    (h1 : (split iri).scheme = (split base).scheme) (h2 : (split iri).authority = (split base).authority)
+    (h3 : (split iri).path = (split base).path)
+    (hq : (split iri).query = (split base).query ∨ (split base).query = none) :
+    ∃ t, relativize (new base n) iri = .some .nothing t ∧ resolve base t = iri := by
+  obtain ⟨t, ht⟩ := same_doc_some (n := n) hs hb hi h1 h2 h3
+  refine ⟨t, ht, ?_⟩
+  have hpe := new_path_end base n hs
+  have hqe := new_query_end base n hs
+  have hd := base_decomp base
+  have hdi := base_decomp iri
+  have hpre : preStr (split iri) = preStr (split base) := by
+    simp [preStr, schemeStr, authStr, h1, h2]
+  rw [hpre, h3] at hdi
+  have hc : cleanCase base n iri = true := by
+    unfold cleanCase
+    simp only [ht, hs, Bool.true_and]
+    rcases hq with hq | hq
+    · -- same query: the common prefix reaches query_end, what follows is the IRI's fragment
+      have hQ : queryStr (split iri) = queryStr (split base) := by simp [queryStr, hq]
+      rw [hQ] at hdi
+      have hl : lcp base iri ≥ (new base n).query_end := by
+        rw [hqe]; conv => lhs; rw [hd, hdi]
+        exact lcp_self_append _ _ _
+      have hdrop : iri.drop (new base n).query_end = fragStr (split iri) := by
+        rw [hqe]; conv => lhs; rw [hdi]
+        rw [List.drop_left]
+      have hF : ((iri.drop (new base n).query_end).isEmpty || startsWith '#' (iri.drop (new base n).query_end)) = true := by
+        rw [hdrop]; unfold fragStr fragO
+        cases (split iri).fragment <;> simp [startsWith]
+      simp [hl, hF]
+    · -- the base has no query: query_end = path_end
+      have hQb : queryStr (split base) = [] := by simp [queryStr, queryO, hq]
+      have hqp : (new base n).query_end = (new base n).path_end := by rw [hqe, hpe, hQb]; simp
+      have hl : lcp base iri ≥ (new base n).path_end := by
+        rw [hpe]; conv => lhs; rw [hd, hdi]
+        rw [List.append_assoc, List.append_assoc _ _ (fragStr (split iri))]
+        exact lcp_self_append _ _ _
+      have hdrop : iri.drop (new base n).path_end = queryStr (split iri) ++ fragStr (split iri) := by
+        rw [hpe]; conv => lhs; rw [hdi]
+        rw [List.append_assoc, List.drop_left]
+      cases hqi : (split iri).query with
+      | none =>
+        have hF : ((iri.drop (new base n).query_end).isEmpty || startsWith '#' (iri.drop (new base n).query_end)) = true := by
+          rw [hqp, hdrop]; unfold queryStr fragStr queryO fragO
+          rw [hqi]
+          cases (split iri).fragment <;> simp [startsWith]
+        have hl' : lcp base iri ≥ (new base n).query_end := by rw [hqp]; exact hl
+        simp [hl', hF]
+      | some q =>
+        have hQ : startsWith '?' (iri.drop (new base n).path_end) = true := by
+          rw [hdrop]; unfold queryStr queryO; rw [hqi]; simp [startsWith]
+        simp [hl, hQ, hq]
+  exact (rel_partial_all base n iri .nothing t ht hc).1
+
+
+example : let b := s "http://a/b?q#f"
+    (split b).scheme.isSome ∧ utf8Shaped 0 b = true ∧ (split (s "http://a/b?q#g")).query = (split b).query ∧
+      (split (s "http://a/b?q#g")).path = (split b).path ∧
+      relativize (new b 0) (s "http://a/b?q#g") = .some .nothing (s "#g") := by decide
+
+/-- the path branches at full strength over an INPUT-side region (`pathInputCase`: nothing in the hypotheses refers to
+what `relativize` returns): for UTF-8 inputs, a base with a rooted path free of dot segments, a common byte prefix that
+ends strictly inside the base path at or after `pseudoroot` (the IRI is inside the deepest directory reachable with
+`parents` steps), and an IRI whose remaining path is plain (`cleanSuffixes`: every suffix starting right after a '/'
+of the common prefix has no dot segment and is empty or starts with a non-empty segment without ':') -
+a reference IS returned, RFC 3986 resolution of it gives back the IRI, it has neither scheme nor authority, and it
+starts with at most `parents` '..' segments. -/
+theorem rel_path_input_partial (base : Octets) (n : Nat) (iri : Octets)
+    (hb : utf8Shaped 0 base = true) (hi : utf8Shaped 0 iri = true) (hc : pathInputCase base n iri = true) :
+    ∃ ins t, relativize (new base n) iri = .some ins t ∧ resolve base (ins.str ++ t) = iri ∧
+      (split (ins.str ++ t)).scheme = none ∧ (split (ins.str ++ t)).authority = none ∧
+      countDotDot (ins.str ++ t) ≤ n := by
+  unfold pathInputCase at hc
+  simp only [Bool.and_eq_true, decide_eq_true_eq] at hc
+  obtain ⟨⟨⟨⟨⟨hs, hroot⟩, hbd⟩, hl0⟩, hl1⟩, hcl⟩ := hc
+  exact inverse_path_input hs hb hi hroot hbd hl0 hl1 hcl
+
+-- the region is inhabited ('../' inserted, './' inserted, plain tail, multi-byte divergence) and excludes the refuted shapes
+example : pathInputCase (s "http://a/b/c/d?q#f") 2 (s "http://a/b/x/y?z") = true ∧
+    pathInputCase (s "http://a/b/c/d") 0 (s "http://a/b/c/") = true ∧
+    pathInputCase (s "http://a/b/c/d") 0 (s "http://a/b/c/e/f#g") = true ∧
+    pathInputCase (s "x:/a/b/c") 1 (s "x:/a/y") = true := by decide
+example : pathInputCase (s "http://a/b/c") 0 (s "http://a/b/x:y") = false ∧
+    pathInputCase (s "http://a/b/d") 0 (s "http://a/b//c") = false ∧
+    pathInputCase (s "http://a/b/c") 0 (s "http://a/b/../x") = false ∧
+    pathInputCase (s "http://a/b/c/d") 1 (s "http://a/x") = false := by decide
 
 end SophiaProofs.C17
